@@ -185,6 +185,9 @@ def parse_puzz_link_url(url):
                 if body[i] == "-":
                     num[j] = int(body[i + 1 : i + 3], 16)
                     i += 3
+                elif body[i] == "+":
+                    num[j] = int(body[i + 1 : i + 4], 16)
+                    i += 4
                 else:
                     if body[i] != ".":
                         num[j] = int(body[i], 16)
